@@ -5,7 +5,7 @@
    amplitude <b|psi>, or the dense element <b|O|b'> of an MPO with b_q := out_q*d + in_q.
    The model functions are those of Model/MPSAlg.v, tied to /repo by tools/props/c11.py. *)
 From Coq Require Import List Ring ZArith Bool.
-From EV Require Import Model.TransferMat Model.MPSAlg Model.Zip Proofs.TransferMat Proofs.MPSAlg Proofs.MPSInner Proofs.ZipProofs Model.Bath Proofs.ExpectProofs.
+From EV Require Import Model.TransferMat Model.MPSAlg Model.Zip Proofs.TransferMat Proofs.MPSAlg Proofs.MPSInner Proofs.ZipProofs Model.Bath Proofs.ExpectProofs Proofs.FromAmpsProofs.
 Import ListNotations.
 
 (* add_factors (direct sum [A|B], diag(A,B), ..., [A;B]) represents the sum: for every number of
@@ -122,3 +122,28 @@ Theorem C11_expect_spec_premises_satisfiable :
   forallb (fun i => forallb (fun j => match amp gi_ops ex_top (pair_idx 2 i j) with Some _ => true | None => false end)
                       (strings (repeat 2 2))) (strings (repeat 2 2)) = true.
 Proof. exact expect_example. Qed.
+
+(* The accumulation loop of MPS._from_state_amplitudes (zero state, then `accum += amplitude * product_state` per
+   dictionary entry; before the truncation and normalisation of the real constructor) represents the dictionary:
+   the amplitude at the index string b is the sum of the amplitudes of the entries whose string is b (deltaL is the
+   Kronecker delta of two strings) - every number of sites >= 2, every local dimension, every entry list. *)
+Theorem C11_from_amplitudes_spec : forall (K : Type) (Ko : RingOps K),
+  ring_theory (k0 Ko) (k1 Ko) (kadd Ko) (kmul Ko) (ksub Ko) (kopp Ko) (@eq K) ->
+  forall (d n : nat) (terms : list (list nat * K)) (C : list (T3 K)) (b : list nat),
+  2 <= n -> from_amplitudes Ko d n terms = Some C ->
+  Forall (fun t => length (fst t) = n) terms -> length b = n -> Forall (fun s => s < d) b ->
+  amp Ko C b = Some (sumL Ko terms (fun t => kmul Ko (snd t) (deltaL K Ko (fst t) b))).
+Proof. exact from_amplitudes_spec. Qed.
+
+Theorem C11_deltaL_is_kronecker : forall (K : Type) (Ko : RingOps K),
+  ring_theory (k0 Ko) (k1 Ko) (kadd Ko) (kmul Ko) (ksub Ko) (kopp Ko) (@eq K) ->
+  forall ks b, (ks = b -> deltaL K Ko ks b = k1 Ko) /\ (ks <> b -> deltaL K Ko ks b = k0 Ko).
+Proof. exact deltaL_kronecker. Qed.
+
+Theorem C11_from_amplitudes_spec_premises_satisfiable :
+  match from_amplitudes gi_ops 3 3 [([0;1;2]%nat, (2,1)%Z); ([2;2;0]%nat, (0,-1)%Z); ([0;1;2]%nat, (1,0)%Z)] with
+  | Some C => amp gi_ops C [0;1;2]%nat = Some (3,1)%Z /\ amp gi_ops C [2;2;0]%nat = Some (0,-1)%Z /\
+              amp gi_ops C [1;1;1]%nat = Some (0,0)%Z
+  | None => False
+  end.
+Proof. exact from_amplitudes_example. Qed.
